@@ -463,6 +463,9 @@ def check(prop, tier, keep=False):
     t_start = time.time()
     seed = int(os.environ.get("VERIF_SEED", "0") or 0)
     hs = [h for h in registry() if prop in h["props"] and (tier == "thorough" or h["tier"] == "quick")]
+    only = os.environ.get("VERIF_ONLY")
+    if only:
+        hs = [h for h in hs if re.search(only, h["name"])]
     if not hs:
         print(f"no harness registered for {prop} at tier {tier}")
         return 2
